@@ -13,7 +13,7 @@ def TotalPureEs (vs : List Expr) : Prop :=
   ∀ (N : NumOps) (call : CallFn N) (ρ : ExtOracle N) (k : Nat) (env : Env N) (σ : State N),
     ∃ ws, evalEs call ρ k env vs σ = .ok ws σ
 
-variable {N : NumOps} {Q : QRel} {cx : Cx} {β : CellRel}
+variable {N : NumOps} {Q : QRel} {cx : Cx} {β : CellRel N}
 
 /-- the dead-set entries for the names of a declaration dropped / added on one side -/
 def refNames (ns : List TName) : List DName := (ns.map TName.name).map DName.ref
